@@ -1,4 +1,5 @@
 import SqModel.Generated.TransFrame
+import SqModel.Proofs.BridgeReminder
 import SqModel.Proofs.Bits
 import SqModel.Model.Frame
 import SqModel.Model.Fields
@@ -317,7 +318,7 @@ theorem get_icao_eq (m : Msg) (df : Nat) (h6 : 6 ≤ m.length) (hl : m.length < 
   simp only [T.get_icao, getIcao, hlen, hr, get_crc_eq, range_value_eq m 9 32 (by decide) (by decide)]
 
 theorem filter4_congr {α : Type} (o : Option α) (p1 q1 p2 q2 p3 q3 p4 q4 : α → Bool)
-    (h1 : ∀ a, p1 a = q1 a) (h2 : ∀ a, p2 a = q2 a) (h3 : ∀ a, p3 a = q3 a) (h4 : ∀ a, q1 a = true → p4 a = q4 a) :
+    (h1 : ∀ a, p1 a = q1 a) (h2 : ∀ a, p2 a = q2 a) (h3 : ∀ a, q1 a = true → p3 a = q3 a) (h4 : ∀ a, q1 a = true → p4 a = q4 a) :
     (((o.filter p1).filter p2).filter p3).filter p4 = (((o.filter q1).filter q2).filter q3).filter q4 := by
   cases o with
   | none => rfl
@@ -332,7 +333,10 @@ theorem get_message_eq (cs : List Char) : T.get_message cs = messageOfDigits (cs
   apply filter4_congr
   · intro a; simp [Nat.beq_eq_true_eq, Bool.decide_or]; rfl
   · intro a; rw [get_downlink_format_eq]; unfold lengthMatchesDF; cases getDownlinkFormat a <;> simp
-  · intro a; rfl
+  · -- `reminder`: 0 in the code as in the model on every vector that passed the length filter
+    intro a ha
+    have hlen : a.length = 14 ∨ a.length = 28 := by simpa using ha
+    rw [T_reminder_zero a (by omega), reminder_eq_zero a (by omega)]
   · intro a ha
     have hlen : a.length = 14 ∨ a.length = 28 := by simpa using ha
     exact parity_ok_eq a (by omega) (by rcases hlen with h | h <;> rw [h] <;> decide)
